@@ -569,6 +569,23 @@ def judge_c08(case, lab):
                   if not (got2.get("lazy") or ref2.get("lazy")) and not same_outcome(got2, ref2):
                       res.bad("derivatives-compose", "%s(%s).%s(%s) under %s gives %s; the dataset under the overlaid options %s gives %s" % (
                           mode, p1, mode, p2, o, observe.describe(got2), eff, observe.describe(ref2)))
+    # sibling derivatives made from ONE dataset, evaluated one after the other: each is the dataset under its own overlay
+    if root["k"] == "ds":
+        for path in a["mentions"]:
+            if any(seg.isdigit() for seg in path):
+                continue
+            d = lambda v: (lambda x: x)(__import__("functools").reduce(lambda acc, seg: {seg: acc}, reversed(path), v))   # noqa: E731
+            for mode in ("with_default_options", "with_options"):
+                gs = _fresh(case, lab)
+                sibs = [getattr(gs.root, mode)(d(700 + k)) for k in (1, 2)]
+                outs = [observe.call(lambda s_=s_: s_.evaluate(copy.deepcopy(o)), lab) for s_ in sibs]
+                gf = _fresh(case, lab)
+                alone = observe.call(lambda: getattr(gf.root, mode)(d(702)).evaluate(copy.deepcopy(o)), lab)
+                if outs[1].get("lazy") or alone.get("lazy"):
+                    continue
+                if not same_outcome(outs[1], alone):
+                    res.bad("sibling-overlay", "%s({%s: 702}) evaluated after its sibling ({%s: 701}) under %s gives %s; alone it gives %s" % (
+                        mode, ".".join(path), ".".join(path), o, observe.describe(outs[1]), observe.describe(alone)))
     # (2) no call modifies the caller's dictionary or the pre-set dictionaries
     for what in ("validate", "keys", "explain"):
         fn = getattr(g.root, what)
@@ -921,9 +938,11 @@ def judge_c12_group(cases, lab):
             for e in chain:
                 if isinstance(e, EvaluationError) and not isinstance(getattr(e, "source", None), lab.types.Evaluatable):
                     res.bad("chain-source[%s]" % kind, "an EvaluationError on the chain has source %r" % (getattr(e, "source", None),))
-        if not stateful or any(f[1].get("lazy") for f in fresh):
+        if any(f[1].get("lazy") for f in fresh):
             continue
-        # a failed evaluation stores nothing: histories on one long-lived instance
+        if not stateful and kind != EXC_KINDS[0]:
+            continue      # (graphs without a cache: one exception kind is enough for the history clause)
+        # a failed evaluation stores nothing -- in a cache or anywhere else on the objects: histories on one long-lived instance
         for order in _orders(len(cases), canon_nodes(cases[0]) + kind):
             g = _fresh(cases[0], lab, style={"exc": kind})
             hist = []
@@ -1161,6 +1180,27 @@ def _recording_cache(lab):
     return Recording()
 
 
+def _c16_nocache_derivative(res, case, o, lab):
+    """`nocache` means every evaluation recomputes -- of the dataset and of every derivative made from it."""
+    nodes = case["nodes"]
+    root = nodes[-1]
+    if root["k"] != "ds" or root.get("cache", "mem") != "none" or not (root["cb"] or (root["dflt"] and not root["disp"])):
+        return
+    rid = len(nodes)
+    g = _fresh(case, lab)
+    for name, target in (("the dataset", g.root), ("with_options()", g.root.with_options({"VERIF_UNUSED": 1})),
+                         ("with_default_options()", g.root.with_default_options({"VERIF_UNUSED": 1}))):
+        counts = []
+        for _ in range(2):
+            n0 = len(g.log)
+            r = observe.call(lambda: target.evaluate(copy.deepcopy(o)), lab)
+            if not r["ok"] or r.get("lazy"):
+                return
+            counts.append(len([e for e in g.log[n0:] if e[0] == ("callback" if root["cb"] else "body") and e[3] == rid]))
+        if counts[0] >= 1 and counts[1] < 1:
+            res.bad("nocache-derivative", "%s of a nocache dataset: the second evaluation under the same options ran nothing (runs per evaluation: %s)" % (name, counts))
+
+
 def _c16_backend_untouched(res, case, o, lab):
     """With caching disabled (either option spelling, or the context manager) stored entries are neither read
     nor written: a backend that records its accesses sees none during such an evaluation."""
@@ -1205,6 +1245,7 @@ def judge_c16_group(cases, lab):
         res = out[id(c)]
         o = dec(c["a"]["o"])
         _c16_backend_untouched(res, c, o, lab)
+        _c16_nocache_derivative(res, c, o, lab)
         base_g = _fresh(c, lab)
         ref, ref_log, ref_rec, ref_miss = _eval_with(base_g, o, ("on", "on", "on"), lab)
         if ref.get("lazy"):
